@@ -341,7 +341,7 @@ Section Iface.
 
   Lemma cap_lt_usize : capN < usize_max.
   Proof.
-    destruct CAP as [_ Hc]. unfold usize_max.
+    pose proof CAP as Hc. unfold capacity_ok in Hc. unfold usize_max.
     assert (2 ^ 63 = 9223372036854775808) as E by reflexivity. rewrite E in Hc. lia.
   Qed.
 
